@@ -536,10 +536,10 @@ class Fn:
 
 
 class Facts:
-    def __init__(self, raw):
-        if not os.environ.get("VERIF_NO_INLINE"):
+    def __init__(self, raw, flatten=()):
+        if not os.environ.get("VERIF_NO_INLINE") or flatten:
             from . import inline
-            raw = inline.normalise(raw)
+            raw = inline.normalise(raw, flatten)
         self.raw = raw
         self.tu = raw.get("tu")
         allf = [Fn(f, self) for f in raw.get("functions", [])]
